@@ -126,7 +126,9 @@ mutual
             injection h with h
             subst h
             have hb := hJ _ _ _ r3 (inDoc_of_frag (fragForName_mem hf)) h3
-            exact AllP.append (AllP.append (hd _ _) hb) (AllP.single trivial)
+            exact AllP.append (AllP.append (AllP.append (hd _ _)
+              (walkDirectives_cov s d cur _ f.dirs _ _ (Or.inr ⟨f, fragForName_mem hf, Or.inr rfl⟩))) hb)
+              (AllP.single trivial)
   theorem walkSelections_cov (s : SV) (d : QueryDoc) (cur : Option OperationDef) (J : Jump) (hJ : JumpCov s d J) :
       ∀ (xs : Selections) (parent : Option Definition) (ws : WS) r, (∀ i, InSels xs i → InDoc s d i) →
         walkSelections s d cur J parent xs ws = some r → AllP (CovSound s d) r.2
